@@ -12,7 +12,7 @@
     property, written here independently of the model, to the implementation's
     own observations -- tags 2..9, or 11/12 inside a known-finding class. *)
 From Gnmi Require Import Base.Prelude FakeQ.GoRand FakeQ.FakeQModel.
-From Coq Require Import Floats.
+From Coq Require Export Floats.
 Open Scope Z_scope.
 
 Inductive oval :=
